@@ -193,11 +193,140 @@ pub fn alphabets(thorough: bool) -> Vec<TypeAlpha> {
     // Types of the RFC 4034 6.2 list that hickory has no typed RDATA for
     v.push(TypeAlpha { name: "DNAME", code: 39, values: vec![vec![n("T.z")], vec![n("a.z")], vec![n("b.z")]] });
     v.push(TypeAlpha { name: "KX", code: 36, values: vec![vec![u16b(1), n("K.z")], vec![u16b(1), n("a.z")], vec![u16b(0), n("z.z")]] });
+    // ---- extension round: every remaining type hickory has typed RDATA for
+    let nsec3 = |alg: u8, flags: u8, iter: u16, salt: &[u8], next: &[u8], types: &[u16]| -> Rdata {
+        let mut x = vec![alg, flags];
+        x.extend_from_slice(&iter.to_be_bytes());
+        x.extend_from_slice(&cs(salt));
+        x.extend_from_slice(&cs(next));
+        x.extend_from_slice(&type_bitmap(types));
+        vec![Field::Bytes(x)]
+    };
+    v.push(TypeAlpha {
+        name: "NSEC3",
+        code: 50,
+        values: vec![
+            nsec3(1, 0, 0, &[], &[0x11; 20], &[1, 46]),
+            nsec3(1, 1, 0, &[], &[0x11; 20], &[1, 46]),
+            nsec3(1, 0, 1, &[0xab], &[0x11; 20], &[1, 2, 46]),
+            nsec3(1, 0, 1, &[0xab, 0xcd], &[0x10; 20], &[]),
+            nsec3(1, 0, 0, &[], &[0x11; 20], &[1, 46, 1234]),
+        ],
+    });
+    let n3p = |alg: u8, flags: u8, iter: u16, salt: &[u8]| -> Rdata {
+        let mut x = vec![alg, flags];
+        x.extend_from_slice(&iter.to_be_bytes());
+        x.extend_from_slice(&cs(salt));
+        vec![Field::Bytes(x)]
+    };
+    v.push(TypeAlpha {
+        name: "NSEC3PARAM",
+        code: 51,
+        values: vec![n3p(1, 0, 0, &[]), n3p(1, 0, 0, &[0]), n3p(1, 0, 0, &[0, 0]), n3p(1, 0, 10, &[0xab, 0xcd])],
+    });
+    v.push(TypeAlpha {
+        name: "CDS",
+        code: 59,
+        values: vec![ds(1, 8, 2, 0xaa, 32), ds(1, 8, 2, 0xab, 32), ds(1, 8, 4, 0xaa, 48), vec![b(&[0, 0, 0, 0, 0])]],
+    });
+    v.push(TypeAlpha {
+        name: "CDNSKEY",
+        code: 60,
+        values: vec![dnskey(256, 15, &[7u8; 32]), dnskey(257, 15, &[7u8; 32]), dnskey(257, 13, &[9u8; 64]), vec![b(&[0, 0, 3, 0, 0])]],
+    });
+    v.push(TypeAlpha {
+        name: "KEY",
+        code: 25,
+        values: vec![dnskey(256, 8, &[3, 1, 0, 1, 0xc1, 0xc2, 0xc3, 0xc4]), dnskey(0, 13, &[9u8; 64]), dnskey(512, 15, &[7u8; 32])],
+    });
+    let assoc = |u: u8, sel: u8, m: u8, data: &[u8]| -> Rdata {
+        let mut x = vec![u, sel, m];
+        x.extend_from_slice(data);
+        vec![Field::Bytes(x)]
+    };
+    for (name, code) in [("TLSA", 52u16), ("SMIMEA", 53)] {
+        v.push(TypeAlpha {
+            name,
+            code,
+            // the 2nd..4th value are proper prefixes of one another / differ only in length
+            values: vec![assoc(3, 1, 1, &[0xee; 32]), assoc(3, 1, 0, &[0x30, 0x82]), assoc(3, 1, 0, &[0x30, 0x82, 0x00]), assoc(3, 1, 0, &[0x30, 0x82, 0x00, 0x00]), assoc(0, 0, 2, &[0x01; 64])],
+        });
+    }
+    v.push(TypeAlpha {
+        name: "SSHFP",
+        code: 44,
+        values: vec![
+            vec![b(&[1, 1]), b(&[0x12; 20])],
+            vec![b(&[1, 1]), b(&[0x12; 19])],
+            vec![b(&[4, 2]), b(&[0xaa; 32])],
+            vec![b(&[4, 2]), b(&[0xaa; 31]), b(&[0xab])],
+        ],
+    });
+    let cert = |t: u16, tag: u16, alg: u8, data: &[u8]| -> Rdata {
+        let mut x = t.to_be_bytes().to_vec();
+        x.extend_from_slice(&tag.to_be_bytes());
+        x.push(alg);
+        x.extend_from_slice(data);
+        vec![Field::Bytes(x)]
+    };
+    v.push(TypeAlpha {
+        name: "CERT",
+        code: 37,
+        values: vec![cert(1, 12345, 8, &[0x30, 0x82, 1, 2]), cert(1, 12345, 8, &[0x30, 0x82, 1, 2, 0]), cert(3, 0, 0, &[0x99; 40]), cert(254, 65535, 253, &[1])],
+    });
+    let csync = |serial: u32, flags: u16, types: &[u16]| -> Rdata {
+        let mut x = serial.to_be_bytes().to_vec();
+        x.extend_from_slice(&flags.to_be_bytes());
+        x.extend_from_slice(&type_bitmap(types));
+        vec![Field::Bytes(x)]
+    };
+    v.push(TypeAlpha {
+        name: "CSYNC",
+        code: 62,
+        values: vec![csync(66, 3, &[1, 2, 28]), csync(66, 1, &[2]), csync(0, 0, &[]), csync(0xffff_ffff, 2, &[1, 2, 28, 1234])],
+    });
+    {
+        // a long common prefix, values that differ only in length or only in the last octet
+        let base: Vec<u8> = (0..40u8).map(|i| 0x40 ^ i).collect();
+        let ext = |tail: &[u8]| -> Rdata {
+            let mut x = base.clone();
+            x.extend_from_slice(tail);
+            vec![Field::Bytes(x)]
+        };
+        v.push(TypeAlpha {
+            name: "OPENPGPKEY",
+            code: 61,
+            values: vec![ext(&[]), ext(&[0]), ext(&[0, 0]), ext(&[1]), ext(&[0, 1]), vec![b(&base[..39])]],
+        });
+    }
+    v.push(TypeAlpha { name: "NULL", code: 10, values: vec![vec![b(&[])], vec![b(&[0xff])], vec![b(&[0xff, 0])], vec![b(b"\x01A\x00")]] });
+    v.push(TypeAlpha {
+        name: "HINFO",
+        code: 13,
+        // on the RFC 4034 list, but contains no names: nothing may be folded
+        values: vec![
+            vec![b(&[&cs(b"CPU")[..], &cs(b"Os")[..]].concat())],
+            vec![b(&[&cs(b"cpu")[..], &cs(b"os")[..]].concat())],
+            vec![b(&[&cs(b"CPU")[..], &cs(b"")[..]].concat())],
+            vec![b(&[&cs(b"")[..], &cs(b"")[..]].concat())],
+        ],
+    });
+    // ANAME is a private type of hickory (65305): not on the RFC 4034 list, names keep their case
+    v.push(TypeAlpha { name: "TYPE65305", code: 65305, values: vec![vec![n("T.z")], vec![n("t.z")], vec![n("a.z")], vec![n("")]] });
+    // more SvcParams (RFC 9460 7): mandatory, no-default-alpn, ipv4hint, ipv6hint, an unknown key
+    v.push(TypeAlpha {
+        name: "SVCB",
+        code: 64,
+        values: vec![
+            svcb(1, "Svc.z", &[(0, &[0, 1, 0, 4]), (1, b"\x02h2\x02h3"), (4, &[192, 0, 2, 1])]),
+            svcb(1, "Svc.z", &[(1, b"\x02h2"), (2, &[]), (3, &[0x01, 0xbb]), (4, &[192, 0, 2, 1, 192, 0, 2, 2]), (6, &[0x20, 1, 0x0d, 0xb8, 0, 0, 0, 0, 0, 0, 0, 0, 0, 0, 0, 1])]),
+            svcb(2, "svc.z", &[(65000, &[1, 2, 3])]),
+            svcb(2, "svc.z", &[(65000, &[])]),
+        ],
+    });
     if thorough {
         v.push(TypeAlpha { name: "RP", code: 17, values: vec![vec![n("Box.z"), n("Txt.z")], vec![n("a.z"), n("")]] });
         v.push(TypeAlpha { name: "AFSDB", code: 18, values: vec![vec![u16b(1), n("Db.z")], vec![u16b(2), n("a.z")]] });
-        // HINFO: in the list, but has no names
-        v.push(TypeAlpha { name: "HINFO", code: 13, values: vec![vec![b(&[&cs(b"CPU")[..], &cs(b"Os")[..]].concat())], vec![b(&[&cs(b"cpu")[..], &cs(b"os")[..]].concat())]] });
     }
     v
 }
